@@ -155,4 +155,7 @@ Emit == PrintT(<<"REPLAY", ToJson(Case)>>)
 Inv == stage = 1 => (Typed /\ Shrinks /\ RoundOrder /\ CmpDual /\ SubstrDefault /\ Emit)
 
 ASSUME PrintT(<<"DOC", ToJson([k |-> "doc", doc |-> 1, tree |-> DocR, text |-> Ser(DocR)])>>)
+\* the example table of number -> string conversions outside the exact range (ScalarFns!NumStringTable)
+ASSUME \A i \in 1..Len(NumStringTable) :
+         PrintT(<<"REPLAY", ToJson([k |-> "tab", doc |-> 1, expr |-> NumStringTable[i].x, exp |-> NumStringTable[i].s])>>)
 =============================================================================
